@@ -97,27 +97,44 @@ def relevant(ob, pid):
     return False
 
 
-def witness_search(pid, spec, budget):
-    kind = spec.get("witness")
+def _oracle_cmd(kind, pid, budget):
     if kind == "tok":
-        cmd = [VENV_PY, os.path.join(ROOT, "replay", "tok_oracle.py"), "search", pid, str(budget), "12"]
-    elif kind:
-        cmd = [VENV_PY, os.path.join(ROOT, "replay", kind + "_oracle.py"), "search", pid, str(budget)]
-    else:
+        return [VENV_PY, os.path.join(ROOT, "replay", "tok_oracle.py"), "search", pid, str(budget), "12"]
+    return [VENV_PY, os.path.join(ROOT, "replay", kind + "_oracle.py"), "search", pid, str(budget)]
+
+
+def witness_search(pid, spec, budget):
+    """The property's own executable oracle first; then the oracles of the properties its statement builds on
+    (registry `witness_also`: e.g. C15's lines are C12's detections, C08/C20 have split()-level sentences), each
+    searching ITS property's scenarios on the same tree.  A witness records which oracle produced it."""
+    kind = spec.get("witness")
+    if not kind:
         return None, 0, "no witness search available for this property"
     env = dict(os.environ)
     env["PYTHONPATH"] = REPO
-    try:
-        out = subprocess.run(cmd, capture_output=True, text=True, timeout=budget + 120, env=env, cwd=REPO)
-        line = out.stdout.strip().splitlines()[-1] if out.stdout.strip() else ""
-        j = json.loads(line)
-        return j.get("witness"), j.get("evaluated", 0), out.stderr[-2000:]
-    except Exception as e:  # noqa
-        return None, 0, "witness search failed: %s" % e
+    total, log = 0, ""
+    for i, (k_, p_) in enumerate([(kind, pid)] + [tuple(x) for x in spec.get("witness_also", ())]):
+        b_ = budget if i == 0 else max(15, budget // 2)
+        try:
+            out = subprocess.run(_oracle_cmd(k_, p_, b_), capture_output=True, text=True, timeout=b_ + 120, env=env, cwd=REPO)
+            line = out.stdout.strip().splitlines()[-1] if out.stdout.strip() else ""
+            j = json.loads(line)
+            total += j.get("evaluated", 0)
+            log += out.stderr[-1000:]
+            w = j.get("witness")
+            if w is not None:
+                if i > 0:
+                    w["oracle"] = k_
+                    w["oracle_pid"] = p_
+                    w["note"] = "found by the oracle of %s, on which the statement of %s builds" % (p_, pid)
+                return w, total, log
+        except Exception as e:  # noqa
+            log += "witness search (%s oracle) failed: %s" % (k_, e)
+    return None, total, log
 
 
 def replay_witness(w, spec):
-    kind = spec.get("witness")
+    kind = w.get("oracle") or spec.get("witness")
     script = "tok_oracle.py" if kind == "tok" else kind + "_oracle.py"
     env = dict(os.environ)
     env["PYTHONPATH"] = REPO
@@ -398,7 +415,7 @@ def main():
             print("VIOLATION property=%s replay=%s" % (pid, path))
             return 1
         return 3
-    if vac:
+    if vac and not viol_lines:
         for v in vac:
             print("VACUITY: " + v)
         return 3
